@@ -217,8 +217,12 @@ pub extern "sysv64" fn memory_read_byte(areas: *const MemoryAreas, addr: u16) ->
       return 0xff;
     }
     let offset = addr as usize & 0x1fff;
-    // RAM smaller than the 8KB window is mirrored
-    return memory_areas.cart_ram[(0x2000 * memory_areas.cart_state.get_ram_bank() + offset) % ram_size];
+    let index = 0x2000 * memory_areas.cart_state.get_ram_bank() + offset;
+    if index >= ram_size {
+      // RAM smaller than the 8KB window leaves the rest of the window unmapped
+      return 0xff;
+    }
+    return memory_areas.cart_ram[index];
   }
   if addr < 0xd000 { // Work RAM Bank 0
     let offset = addr as usize & 0xfff;
@@ -270,8 +274,10 @@ pub extern "sysv64" fn memory_write_byte(areas: *mut MemoryAreas, addr: u16, val
       return;
     }
     let offset = addr as usize & 0x1fff;
-    let index = (0x2000 * memory_areas.cart_state.get_ram_bank() + offset) % ram_size;
-    memory_areas.cart_ram[index] = value;
+    let index = 0x2000 * memory_areas.cart_state.get_ram_bank() + offset;
+    if index < ram_size {
+      memory_areas.cart_ram[index] = value;
+    }
     return;
   }
   if addr < 0xd000 { // Work RAM Bank 0
